@@ -8,7 +8,7 @@
                             layer's normalisation give back the stored values, statement by statement.
 
     and the refutations: negative numbers, special floats, SMALLINT values, whole NUMERIC values,
-    non-ASCII CHAR values, and strings with backslash / newline / comment-like lines.
+    CHAR values with a non-blank character beyond the first n bytes, and strings with backslash / newline / comment-like lines.
 
     Rust's float formatting / parsing are the fields of [float_ops]; what is assumed about them is
     the record [float_text_ok] below (a hypothesis of the theorems, never an axiom). *)
@@ -281,14 +281,45 @@ Proof. unfold valid_time_b, valid_time. rewrite !andb_true_iff, !Z.leb_le. tauto
 Lemma pad_spaces_exact n s : Z.of_nat (length s) = n -> pad_spaces n s = s.
 Proof. intros <-. unfold pad_spaces. rewrite Nat2Z.id, Nat.sub_diag. apply app_nil_r. Qed.
 
-(** the literal parses to a value that [coerce_value] turns into the stored one *)
+(** ** CHAR(n): bytes on the way in, characters in the storage layer *)
+Lemma floor_chars_le n s : (floor_chars n s <= length s)%nat.
+Proof.
+  revert n. induction s as [|c r IH]; intros n; cbn [floor_chars length]; [lia|].
+  destruct (width c <=? n); [specialize (IH (n - width c)); lia | lia].
+Qed.
+
+(** when the cut is taken ([n] bytes do not hold the string) some character is left out *)
+Lemma floor_chars_lt n s : 0 <= n < blen s -> (floor_chars n s < length s)%nat.
+Proof.
+  revert n. induction s as [|c r IH]; intros n H; cbn [floor_chars length blen] in *; [lia|].
+  pose proof (width_range c).
+  destruct (Z.leb_spec (width c) n); [|lia]. specialize (IH (n - width c) ltac:(lia)). lia.
+Qed.
+
+Lemma all_blank_repeat l : forallb (Z.eqb 32) l = true -> l = repeat 32 (length l).
+Proof.
+  induction l as [|x l IH]; intros H; [reflexivity|]. cbn [forallb] in H. apply andb_true_iff in H as [Hx H].
+  apply Z.eqb_eq in Hx. subst x. cbn [length repeat]. rewrite <- IH by exact H. reflexivity.
+Qed.
+
+(** what [coerce_value] makes of the parsed literal of a stored value: the value itself, except for
+    a CHAR value longer than [n] bytes, which is cut on a character boundary *)
+Definition coerced (ty : dtype) (v : sqlvalue) : sqlvalue :=
+  match ty, v with
+  | TChar n, VCharacter s => if n <? blen s then VCharacter (byte_floor_prefix n s) else v
+  | _, _ => v
+  end.
+
+(** the literal parses to a value that [coerce_value] turns into [coerced ty v] ... *)
 Lemma value_parse ty nl v rest :
   value_ok fl ty nl v = true ->
-  exists pv, parse_value fl (value_toks v ++ rest) = OOk (pv, rest) /\ coerce_value fl pv ty = OOk v.
+  exists pv, parse_value fl (value_toks v ++ rest) = OOk (pv, rest) /\ coerce_value fl pv ty = OOk (coerced ty v).
 Proof.
   intros V.
+  assert (CI : forall w, (forall s0, w <> VCharacter s0) -> coerced ty w = w)
+    by (intros w Hw; destruct ty, w; try reflexivity; exfalso; eapply Hw; reflexivity).
   destruct v as [n|n|n|n|b|b|b|b|s|s|b|y m d|h mi s ns|y m d h mi s ns|mo d us|];
-    cbn [value_ok] in V; cbn [value_toks app parse_value].
+    cbn [value_ok] in V; cbn [value_toks app parse_value]; try rewrite CI by discriminate.
   - (* Integer *) destruct ty; cbn [value_ok] in V; try (dead V).
     unfold nonneg_i64, i64_max in V. apply andb_true_iff in V as [V0 V1]. apply Z.leb_le in V0, V1.
     unfold parse_i64. rewrite parse_show_nat by lia. eexists. split; reflexivity.
@@ -317,12 +348,11 @@ Proof.
       pose proof (ft_int64 fl FT (show_f64 fl b) i (parse_i64_digits _ _ (ft_shape64 fl FT b V) P) P) as E.
       rewrite (ft_rt64 fl FT b V) in E. inversion E. reflexivity.
     + rewrite (ft_rt64 fl FT b V). eexists. split; reflexivity.
-  - (* Character: read as VARCHAR, padded to the column length (nothing to pad) *)
+  - (* Character: read as VARCHAR; cut to n bytes, or padded to n characters (nothing to pad) *)
     destruct ty; cbn [value_ok] in V; try (dead V).
-    apply andb_true_iff in V as [V V2]. apply andb_true_iff in V as [_ V1]. apply Z.eqb_eq in V2.
-    eexists. split; [reflexivity|]. cbn [coerce_value].
-    rewrite (blen_ascii s V1). replace (length <? Z.of_nat (Datatypes.length s)) with false by (symmetry; apply Z.ltb_ge; lia).
-    rewrite pad_spaces_exact by exact V2. reflexivity.
+    apply andb_true_iff in V as [V V3]. apply andb_true_iff in V as [_ V2]. apply Z.eqb_eq in V2.
+    eexists. split; [reflexivity|]. cbn [coerce_value coerced].
+    destruct (length <? blen s); [reflexivity|]. rewrite pad_spaces_exact by exact V2. reflexivity.
   - (* Varchar *) destruct ty; cbn [value_ok] in V; try (dead V). eexists. split; reflexivity.
   - (* Boolean *) destruct ty; cbn [value_ok] in V; try (dead V).
     destruct b; kw_compute; eexists; split; reflexivity.
@@ -339,24 +369,48 @@ Proof.
 Qed.
 
 (** the storage layer keeps the value as it is *)
-Lemma value_normalize ty nl v : value_ok fl ty nl v = true -> normalize_value v ty = OOk v.
+(** ... which the storage layer turns (back) into the stored value *)
+Lemma value_normalize ty nl v : value_ok fl ty nl v = true -> normalize_value (coerced ty v) ty = OOk v.
 Proof.
   intros V.
+  assert (CI : forall w, (forall s0, w <> VCharacter s0) -> coerced ty w = w)
+    by (intros w Hw; destruct ty, w; try reflexivity; exfalso; eapply Hw; reflexivity).
   destruct v as [n|n|n|n|b|b|b|b|s|s|b|y m d|h mi s ns|y m d h mi s ns|mo d us|];
-    cbn [value_ok] in V; try (destruct ty; cbn [value_ok] in V; try (dead V); reflexivity).
+    cbn [value_ok] in V; try rewrite CI by discriminate;
+    try (destruct ty; cbn [value_ok] in V; try (dead V); reflexivity).
   - (* Character *) destruct ty; cbn [value_ok] in V; try (dead V).
-    apply andb_true_iff in V as [V V2]. apply andb_true_iff in V as [_ V1]. apply Z.eqb_eq in V2.
-    cbn [normalize_value]. rewrite (blen_ascii s V1).
-    replace (Z.of_nat (Datatypes.length s) <? length) with false by (symmetry; apply Z.ltb_ge; lia).
-    replace (length <? Z.of_nat (Datatypes.length s)) with false by (symmetry; apply Z.ltb_ge; lia). reflexivity.
+    apply andb_true_iff in V as [V V3]. apply andb_true_iff in V as [_ V2]. apply Z.eqb_eq in V2.
+    cbn [coerced]. destruct (Z.ltb_spec length (blen s)) as [Hcut | Hfit].
+    + (* cut to the characters that fit in n bytes, then padded back with the blanks that were cut *)
+      pose proof (floor_chars_lt length s ltac:(lia)) as Lk. set (k := floor_chars length s) in *.
+      cbn [normalize_value]. unfold byte_floor_prefix. fold k. rewrite firstn_length_le by lia.
+      replace (Z.of_nat k <? length) with true by (symmetry; apply Z.ltb_lt; lia).
+      unfold pad_spaces. rewrite firstn_length_le by lia.
+      pose proof (all_blank_repeat _ V3) as B. rewrite skipn_length in B.
+      replace (Z.to_nat length - k)%nat with (Datatypes.length s - k)%nat by lia.
+      rewrite <- B, firstn_skipn. reflexivity.
+    + cbn [normalize_value].
+      replace (Z.of_nat (Datatypes.length s) <? length) with false by (symmetry; apply Z.ltb_ge; lia).
+      replace (length <? Z.of_nat (Datatypes.length s)) with false by (symmetry; apply Z.ltb_ge; lia). reflexivity.
   - (* Varchar *) destruct ty as [| | | | | | |ml| | | | | | | | | | | | | |]; cbn [value_ok] in V; try (dead V).
     destruct ml as [n|]; [|reflexivity]. apply andb_true_iff in V as [_ V1]. apply Z.leb_le in V1.
     cbn [normalize_value]. replace (n <? blen s) with false by (symmetry; apply Z.ltb_ge; lia). reflexivity.
   - destruct ty; try reflexivity; repeat match goal with o : option Z |- _ => destruct o end; reflexivity.
 Qed.
 
-Lemma value_null ty nl v : value_ok fl ty nl v = true -> nl || negb (is_null v) = true.
-Proof. destruct v; cbn [value_ok is_null negb]; intros H; try apply orb_true_r. rewrite H. reflexivity. Qed.
+Lemma value_null ty nl v : value_ok fl ty nl v = true -> nl || negb (is_null (coerced ty v)) = true.
+Proof.
+  destruct v; cbn [value_ok]; intros H;
+    try (destruct ty; cbn [coerced is_null negb]; try apply orb_true_r;
+         match goal with |- context [if ?b then _ else _] => destruct b end; apply orb_true_r).
+  destruct ty; cbn [coerced is_null negb]; rewrite H; reflexivity.
+Qed.
+
+Fixpoint coerced_row (cols : list column) (row : list sqlvalue) : list sqlvalue :=
+  match cols, row with
+  | c :: cs, v :: vs => coerced (c_type c) v :: coerced_row cs vs
+  | _, _ => []
+  end.
 
 (** every value has at least one token *)
 Lemma value_toks_nonempty ty nl v : value_ok fl ty nl v = true -> value_toks v <> [].
@@ -365,7 +419,7 @@ Proof. destruct v; cbn [value_toks]; try discriminate. destruct ty; cbn [value_o
 Lemma parse_row row : forall cols rest fuel,
   row_ok fl cols row = true -> row <> [] -> (length row <= fuel)%nat ->
   exists pvs, parse_values fl fuel (row_toks row ++ TRParen :: rest) = OOk (pvs, rest)
-              /\ eval_row fl cols pvs = OOk row /\ length pvs = length cols.
+              /\ eval_row fl cols pvs = OOk (coerced_row cols row) /\ length pvs = length cols.
 Proof.
   induction row as [|v row IH]; intros cols rest fuel R Hne Hf; [congruence|].
   destruct cols as [|c cols]; [discriminate|]. cbn [row_ok] in R. apply andb_true_iff in R as [Rv R].
@@ -373,7 +427,7 @@ Proof.
   destruct row as [|v2 row'].
   - destruct cols as [|c2 cols']; [|discriminate].
     cbn [row_toks]. destruct (value_parse (c_type c) (c_nullable c) v (TRParen :: rest) Rv) as (pv & P & C).
-    rewrite P. cbn [obind]. exists [pv]. repeat split. cbn [eval_row]. rewrite C. reflexivity.
+    rewrite P. cbn [obind]. exists [pv]. repeat split. cbn [eval_row coerced_row]. rewrite C. reflexivity.
   - rewrite row_toks_cons2, <- app_assoc. cbn [app].
     destruct (value_parse (c_type c) (c_nullable c) v (TComma :: row_toks (v2 :: row') ++ TRParen :: rest) Rv) as (pv & P & C).
     rewrite P. cbn [obind].
@@ -383,17 +437,17 @@ Proof.
     + cbn [length]. rewrite L2. reflexivity.
 Qed.
 
-Lemma row_not_null cols row : row_ok fl cols row = true -> not_null_ok cols row = true.
+Lemma row_not_null cols row : row_ok fl cols row = true -> not_null_ok cols (coerced_row cols row) = true.
 Proof.
   revert row. induction cols as [|c cols IH]; intros [|v row] R; try discriminate; [reflexivity|].
-  cbn [row_ok] in R. apply andb_true_iff in R as [Rv R]. unfold not_null_ok. cbn [combine forallb].
+  cbn [row_ok] in R. apply andb_true_iff in R as [Rv R]. unfold not_null_ok. cbn [coerced_row combine forallb].
   rewrite (value_null _ _ _ Rv). apply IH, R.
 Qed.
 
-Lemma row_normalize cols row : row_ok fl cols row = true -> normalize_row cols row = OOk row.
+Lemma row_normalize cols row : row_ok fl cols row = true -> normalize_row cols (coerced_row cols row) = OOk row.
 Proof.
   revert row. induction cols as [|c cols IH]; intros [|v row] R; try discriminate; [reflexivity|].
-  cbn [row_ok] in R. apply andb_true_iff in R as [Rv R]. cbn [normalize_row].
+  cbn [row_ok] in R. apply andb_true_iff in R as [Rv R]. cbn [coerced_row normalize_row].
   rewrite (value_normalize _ _ _ Rv). cbn [obind]. rewrite IH by exact R. reflexivity.
 Qed.
 
@@ -448,7 +502,7 @@ Qed.
 Lemma parse_insert_ok name cols row :
   row_ok fl cols row = true -> row <> [] ->
   exists pvs, parse_insert fl (insert_toks name row) = OOk (name, [pvs])
-              /\ eval_row fl cols pvs = OOk row /\ length pvs = length cols.
+              /\ eval_row fl cols pvs = OOk (coerced_row cols row) /\ length pvs = length cols.
 Proof.
   intros R Hne. unfold insert_toks, parse_insert. kw_compute. cbn [negb parse_rows].
   pose proof (row_toks_length row cols R) as L.
@@ -458,7 +512,8 @@ Proof.
 Qed.
 
 Lemma insert_rows_ok t pvs row :
-  eval_row fl (t_cols t) pvs = OOk row -> length pvs = length (t_cols t) -> row_ok fl (t_cols t) row = true ->
+  eval_row fl (t_cols t) pvs = OOk (coerced_row (t_cols t) row) -> length pvs = length (t_cols t) ->
+  row_ok fl (t_cols t) row = true ->
   insert_rows fl t [pvs] = OOk (mk_table (t_name t) (t_cols t) (t_rows t ++ [row])).
 Proof.
   intros E L R. unfold insert_rows. cbn [forallb]. rewrite L, Nat.eqb_refl. cbn [andb negb map_ores].
@@ -1063,12 +1118,21 @@ Theorem numeric_whole_rejected_thm fl b i p s rest :
   obind (parse_value fl (TNum (show_f64 fl b) :: rest)) (fun '(pv, _) => coerce_value fl pv (TNumeric p s)) = OErr.
 Proof. intros P. cbn [parse_value]. rewrite P. reflexivity. Qed.
 
-(** ** CHAR(n) with a non-ASCII value: padded by characters on the way in, cut by bytes on the
-    way back: the table reloads, with a different value *)
+(** ** CHAR(n) with a non-ASCII value.  The storage layer now pads and cuts by CHARACTERS (repair
+    C19-char-length-in-characters); [coerce_value] still measures the literal in BYTES and cuts it
+    on a character boundary.  A value whose overflow beyond [n] bytes is only padding comes back
+    (the former counter-example does): *)
+Theorem char_padded_non_ascii_roundtrip_thm fl itx :
+  let db := one_table [col "A" (TChar 4) true] [[VCharacter [233; 32; 32; 32]]] in
+  db_ok fl db = true /\ load_sql_dump fl (dump_text fl itx (lit "x") db) = OOk db.
+Proof. split; vm_compute; reflexivity. Qed.
+
+(** ... but a value with a real character beyond the first [n] bytes still reloads as a different
+    string (here ['a€ '] in CHAR(3) comes back as ['a  ']) *)
 Theorem char_non_ascii_refuted_thm fl itx :
   exists db db', load_sql_dump fl (dump_text fl itx (lit "x") db) = OOk db'
-                 /\ db = one_table [col "A" (TChar 4) true] [[VCharacter [233; 32; 32; 32]]]
-                 /\ db' = one_table [col "A" (TChar 4) true] [[VCharacter [233; 32; 32]]].
+                 /\ db = one_table [col "A" (TChar 3) true] [[VCharacter [97; 8364; 32]]]
+                 /\ db' = one_table [col "A" (TChar 3) true] [[VCharacter [97; 32; 32]]].
 Proof. eexists _, _. split; [|split; reflexivity]. vm_compute. reflexivity. Qed.
 
 (** ** strings that break the splitter, seen from the loader *)
@@ -1113,10 +1177,10 @@ Qed.
 Theorem load_value_thm fl itx (FT : float_text_ok fl) ty nullable v r ts rest :
   value_ok fl ty nullable v = true -> val_stop r -> lexes r ts ->
   lexes (sql_value_to_literal fl itx v ++ r) (value_toks fl v ++ ts)
-  /\ exists pv, parse_value fl (value_toks fl v ++ rest) = OOk (pv, rest)
-                /\ coerce_value fl pv ty = OOk v /\ normalize_value v ty = OOk v.
+  /\ exists pv cv, parse_value fl (value_toks fl v ++ rest) = OOk (pv, rest)
+                   /\ coerce_value fl pv ty = OOk cv /\ normalize_value cv ty = OOk v.
 Proof.
   intros V Hr H. split; [apply (lexes_value fl itx FT ty nullable); assumption|].
   destruct (value_parse fl itx FT ty nullable v rest V) as (pv & P & C).
-  exists pv. repeat split; [exact P | exact C | apply (value_normalize fl ty nullable), V].
+  exists pv, (coerced ty v). repeat split; [exact P | exact C | apply (value_normalize fl ty nullable), V].
 Qed.
